@@ -189,6 +189,17 @@ CHECKS["C03"] = ("fault_enumeration",
     "judged; non-empty files of the survivor's connection are looked for after qb_ipcc_disconnect.",
     "crash points are syscall boundaries; deadlines get 1 s allowance, a missed one is re-run once", "DESIGN.md C03")
 
+CHECKS["C05"] = ("exploration",
+    "clients under distinct (effective != real) uids/gids against a ptrace-d root server: /dev/shm scanned at every "
+    "server syscall stop (modes at every moment, owners at rest, residue at the end), accept arguments and connect "
+    "results checked against the policy function",
+    "Accept policy = pure function of (uid, gid): refusal with 6 error codes, default ownership, or owner/group/mode "
+    "set by the callback. Library clients and raw peers that keep talking after the refusal, 2-7 concurrently per "
+    "case, both transports. The monitor records every distinct (object, mode, owner, group) it sees under "
+    "/dev/shm at each syscall stop of the server; the oracle judges the records afterwards against what the accept "
+    "callback was told and decided.",
+    "needs root and a private mount namespace; directory mode judged as designed (0770)", "DESIGN.md C05")
+
 REASON_PENDING = "check not registered yet in this revision (implementation in progress, see DESIGN.md section 7)"
 
 
